@@ -35,8 +35,63 @@ func (vm *VM) countFindings(kind, id string) int {
 	return n
 }
 
+// regionsOf evaluates the harness-declared regions under a model.
+func (vm *VM) regionsOf(model map[string]string) map[string]bool {
+	if len(vm.regions) == 0 {
+		return nil
+	}
+	m := map[string]*big.Int{}
+	for k, v := range model {
+		if b, ok := new(big.Int).SetString(v, 10); ok {
+			m[k] = b
+		}
+	}
+	out := map[string]bool{}
+	for name, t := range vm.regions {
+		_, b := t.Eval(m)
+		out[name] = b
+	}
+	return out
+}
+
+// outsideRegions: when the model of a finding lies inside a declared region,
+// ask for another model of the same violation outside every such region, so
+// that a known finding (identified by its region) cannot hide a different one.
+func (vm *VM) outsideRegions(kind, id, msg string, viol *smt.Term, model map[string]string, stack []string) {
+	in := vm.regionsOf(model)
+	q := viol
+	any := false
+	for name, inside := range in {
+		if inside {
+			any = true
+			q = smt.And(q, smt.Not(vm.regions[name]))
+		}
+	}
+	if !any {
+		return
+	}
+	vm.Solver.Push()
+	vm.Solver.Assert(q)
+	if vm.Solver.Check() == smt.Sat {
+		m2 := vm.modelStrings()
+		vm.Solver.Pop()
+		vm.recordFinding(kind, id, msg, m2, stack)
+		return
+	}
+	vm.Solver.Pop()
+}
+
 func (vm *VM) recordFinding(kind, id, msg string, model map[string]string, stack []string) {
-	if vm.countFindings(kind, id) >= maxFindingsPerID {
+	regs := vm.regionsOf(model)
+	// findings are counted per (id, region membership) so that an in-region model cannot crowd out an out-of-region one
+	sig := fmt.Sprint(regs)
+	n := 0
+	for _, f := range vm.Findings {
+		if f.Kind == kind && f.ID == id && fmt.Sprint(f.Regions) == sig {
+			n++
+		}
+	}
+	if n >= maxFindingsPerID {
 		vm.Extra["suppressed_findings"] = vm.intExtra("suppressed_findings") + 1
 		return
 	}
@@ -44,7 +99,7 @@ func (vm *VM) recordFinding(kind, id, msg string, model map[string]string, stack
 	copy(tr, vm.trace)
 	notes := make([]string, len(vm.notes))
 	copy(notes, vm.notes)
-	vm.Findings = append(vm.Findings, Finding{Kind: kind, ID: id, Msg: msg, Model: model, Stack: stack, Notes: notes, Path: tr})
+	vm.Findings = append(vm.Findings, Finding{Regions: regs, Kind: kind, ID: id, Msg: msg, Model: model, Stack: stack, Notes: notes, Path: tr})
 }
 
 func (vm *VM) intExtra(k string) int {
@@ -87,6 +142,7 @@ func (vm *VM) checkAssert(c Value, id string) {
 		model := vm.modelStrings()
 		vm.Solver.Pop()
 		vm.recordFinding("assert", id, "", model, append([]string{}, vm.stack...))
+		vm.outsideRegions("assert", id, "", neg, model, append([]string{}, vm.stack...))
 		// later assertions are evaluated independently: nothing is assumed here
 	case smt.Unknown:
 		vm.Solver.Pop()
@@ -181,6 +237,13 @@ func registerZZ(vm *VM) {
 	})
 	z("Dec", func(vm *VM, _ *frame, a []Value) Value {
 		return mkStr([]Atom{{Kind: aDec, T: vm.bigGet(a[0], "Dec")}})
+	})
+	z("Region", func(vm *VM, _ *frame, a []Value) Value {
+		if vm.regions == nil {
+			vm.regions = map[string]*smt.Term{}
+		}
+		vm.regions[str(a[0])] = toTerm(a[1])
+		return nil
 	})
 	z("Freeze", func(vm *VM, _ *frame, a []Value) Value {
 		vm.Freeze([]Value(a[0].(Slice)))
